@@ -362,11 +362,14 @@ pub fn scenario(name: &str, params: &Value) -> Scenario {
                 let dup = qos > 0 && chz.choose(2) == 1;
                 let retain = chz.choose(2) == 1;
                 let pid = PIDS[chz.choose(if full { PIDS.len() } else { 3 })];
-                let mask = chz.choose(64);
-                let nuser = chz.choose(4);
                 // (the last three: remaining lengths of three bytes, and of four - 2 MiB and more)
                 let sizes = [0usize, 1, 510, 511, 512, 513, 514, 16_400, 2_097_152, 1022, 1023, 1024, 1025, 1026, 2048, 5000, 70_000, 3_200_000];
                 let psize = sizes[chz.choose(if full { sizes.len() } else { 9 })];
+                // (quick tier: the payloads of 16 KiB and more go with no / every property and with one
+                // identifier boundary, so that the part completes within its time box)
+                let heavy = psize > 16_000 && !full;
+                let mask = if heavy { [0usize, 63][chz.choose(2)] } else { chz.choose(64) };
+                let nuser = if heavy { [0usize, 3][chz.choose(2)] } else { chz.choose(4) };
                 let mut props = vec![Prop::var(P_SUBSCRIPTION_ID, sub_id)];
                 if nuser == 2 {
                     // (one SUBSCRIBE with overlapping filters: the server lists its identifier once per match)
